@@ -71,13 +71,25 @@ Definition decl_log (T : frame) (decl x : Z) (log : list label) : list label :=
       end
   end.
 
+Lemma for_check_notin T x : ~ In x (dnames T) -> existsb (fun e => fst e =? x) (firstn (fnfor T) (fdecl T)) = false.
+Proof.
+  intros Hn. destruct (existsb (fun e => fst e =? x) (firstn (fnfor T) (fdecl T))) eqn:E; [|reflexivity]. exfalso.
+  apply existsb_exists in E. destruct E as ([y k] & Hin & Ey). cbn [fst] in Ey. apply Z.eqb_eq in Ey. subst y.
+  apply Hn. unfold dnames. apply in_map_iff. exists (x, k). split; [reflexivity|].
+  rewrite <- (firstn_skipn (fnfor T) (fdecl T)). apply in_app_iff. left. exact Hin.
+Qed.
+
+Lemma for_check_nofor T x : fnfor T = O -> existsb (fun e => fst e =? x) (firstn (fnfor T) (fdecl T)) = false.
+Proof. intros ->. reflexivity. Qed.
+
 Lemma a_declare_at_ok a pre T post decl x :
+  existsb (fun e => fst e =? x) (firstn (fnfor T) (fdecl T)) = false ->
   (forall kk, In (x, kk) (fdecl T) -> kk <= ArgumentDecl /\ decl <= FunctionDecl) ->
   a_declare_at a pre T post decl x
   = ARun (mkA (map (add_pass x (fid T)) pre ++ decl_frame T decl x :: post) (anext a)
               (LDecl (fid T) x :: decl_log T decl x (alog a))).
 Proof.
-  intros Hk. unfold a_declare_at, decl_frame, decl_log.
+  intros Hfor Hk. unfold a_declare_at, decl_frame, decl_log. rewrite Hfor.
   destruct (a_find_decl T x) as [[y kk]|] eqn:E.
   - destruct (a_find_decl_some _ _ _ _ E) as [-> Hin]. destruct (Hk kk Hin) as [H1 H2].
     unfold ArgumentDecl, FunctionDecl, ExprDecl in *.
@@ -137,7 +149,7 @@ Lemma decl_frame_ok T prT below decl x :
   (decl = ArgumentDecl -> ~ In (UPend x) (fund T)) ->
   frame_ok (decl_frame T decl x) prT below.
 Proof.
-  intros [K1 K2 K3 K4 K5 K6 K7 K8] Hp Hk Harg.
+  intros [K1 K2 K3 K4 K5 K6 K7 K8 K9] Hp Hk Harg.
   unfold decl_frame. destruct (a_find_decl T x) as [[y kk]|] eqn:E; [constructor; assumption|].
   pose proof (a_find_decl_none _ _ E) as Hnot. destruct K7 as [K7a K7b].
   assert (Hcases :
@@ -153,7 +165,7 @@ Proof.
   destruct Hcases as [(i & -> & Hnth)|[-> Hnone]].
   - destruct (pend_names_remove_at _ _ _ Hnth K6) as [Hnd Hnx].
     assert (Hlt : (fnarg T + i < length (fund T))%nat) by (apply nth_error_Some; rewrite Hnth; discriminate).
-    constructor; cbn [fdecl fund fnarg fid fisfunc set_fdecl set_fund].
+    constructor; cbn [fdecl fund fnarg fnfor fid fisfunc set_fdecl set_fund].
     + intros y k Hy. apply in_app_last in Hy. destruct Hy as [Hy|Hy]; [apply K1; exact Hy|]. inversion Hy; subst. split; assumption.
     + exact K2.
     + intros y Hy. unfold dnames. cbn [fdecl set_fdecl set_fund]. rewrite map_app. cbn [map fst]. intros Hin. apply in_app_last in Hin.
@@ -168,7 +180,8 @@ Proof.
       * pose proof (length_remove_at (fund T) (fnarg T + i) Hlt). lia.
       * rewrite firstn_remove_at_ge by lia. exact K7b.
     + exact K8.
-  - constructor; cbn [fdecl fund fnarg fid fisfunc set_fdecl set_fund].
+    + exact K9.
+  - constructor; cbn [fdecl fund fnarg fnfor fid fisfunc set_fdecl set_fund].
     + intros y k Hy. apply in_app_last in Hy. destruct Hy as [Hy|Hy]; [apply K1; exact Hy|]. inversion Hy; subst. split; assumption.
     + exact K2.
     + intros y Hy. unfold dnames. cbn [fdecl set_fdecl set_fund]. rewrite map_app. cbn [map fst]. intros Hin. apply in_app_last in Hin.
@@ -179,6 +192,7 @@ Proof.
     + exact K6.
     + split; assumption.
     + exact K8.
+    + exact K9.
 Qed.
 
 (* the log after the declaration still refers to unresolved entries that exist, and means the same *)
